@@ -400,4 +400,57 @@ theorem equalizeCount_nearest (vs d : Rat) (hq : 0 ≤ d / vs) :
     have h := (Rat.floor_lt_iff (a := d / vs + 1 / 2) (x := Rat.floor (d / vs + 1 / 2) + 1)).mp this
     push_cast at h; linarith
 
+/-! ### coarsening after the fix: every level uses its current extent -/
+
+theorem coarsenCoded1_self (cur : Nat) (g : Nat → Rat) : coarsenCoded1 cur cur g = .ok (coarsen1 cur g) := by
+  have h : min (cur / 2) (halfUp cur) = cur / 2 := by unfold halfUp; omega
+  simp only [coarsenCoded1, h, if_true]
+  rfl
+
+theorem coarsenLevels_eq_ideal : ∀ (l cur : Nat) (g : Nat → Rat), coarsenLevels l cur g = .ok (coarsenIdeal l cur g) := by
+  intro l
+  induction l with
+  | zero => intro cur g; rfl
+  | succ l ih => intro cur g; simp only [coarsenLevels, coarsenIdeal, coarsenCoded1_self]; exact ih _ _
+
+/-! ### canvas of a superposition -/
+
+theorem minOf_le : ∀ (xs : List Int) (x : Int), x ∈ xs → minOf xs ≤ x := by
+  intro xs
+  induction xs with
+  | nil => intro x h; simp at h
+  | cons a as ih =>
+    intro x h
+    cases as with
+    | nil => simp at h; subst h; simp [minOf]
+    | cons b bs =>
+      simp only [minOf]
+      rcases List.mem_cons.mp h with e | e
+      · subst e; exact Int.min_le_left _ _
+      · exact Int.le_trans (Int.min_le_right _ _) (ih x e)
+
+theorem le_maxOf : ∀ (xs : List Int) (x : Int), x ∈ xs → x ≤ maxOf xs := by
+  intro xs
+  induction xs with
+  | nil => intro x h; simp at h
+  | cons a as ih =>
+    intro x h
+    cases as with
+    | nil => simp at h; subst h; simp [maxOf]
+    | cons b bs =>
+      simp only [maxOf]
+      rcases List.mem_cons.mp h with e | e
+      · subst e; exact Int.le_max_left _ _
+      · exact Int.le_trans (ih x e) (Int.le_max_right _ _)
+
+/-- every image lies inside the canvas computed from the extremal corners -/
+theorem canvas_fits (imgs : List PlacedZ) (p : PlacedZ) (hp : p ∈ imgs) :
+    fits (onCanvas (canvasOf imgs) p).offset (onCanvas (canvasOf imgs) p).shape (canvasOf imgs).shape = true := by
+  have t1 := minOf_le (imgs.map (·.top)) p.top (List.mem_map_of_mem hp)
+  have l1 := minOf_le (imgs.map (·.left)) p.left (List.mem_map_of_mem hp)
+  have b1 := le_maxOf (imgs.map fun q => q.top + q.rows) (p.top + p.rows) (List.mem_map.mpr ⟨p, hp, rfl⟩)
+  have r1 := le_maxOf (imgs.map fun q => q.left + q.cols) (p.left + p.cols) (List.mem_map.mpr ⟨p, hp, rfl⟩)
+  simp only [onCanvas, canvasOf, fits, Bool.and_eq_true, decide_eq_true_eq, and_true]
+  constructor <;> omega
+
 end Darsia
